@@ -599,6 +599,11 @@ WIDE_FORMS = [f for f in TEXT_FORMS_MAIN + TEXT_FORMS_MINOR if (f[0], f[1]) in
               {('token', 'sq'), ('pattern', 'slashes'), ('constant', 'bq'), ('alert', 'bq'), ('param', 'sq'), ('kwparam', 'sq'), ('keyword', 'sq')}]
 
 
+ML_ALPHA = ('a', ' ', '\n')
+ML_FORMS = [f for f in TEXT_FORMS_MAIN + TEXT_FORMS_MINOR if (f[0], f[1]) in
+            {('constant', 'bq3'), ('alert', 'bq3'), ('pattern', 'slashes'), ('token', 'ml'), ('token', 'sq-esc')}]
+
+
 def atom_cases(tier, seed):
     L = 4 if tier == 'thorough' else 3
     cases = []
@@ -621,6 +626,11 @@ def atom_cases(tier, seed):
     for kind, form, fmt, spelling in WIDE_FORMS:
         for s in RAIL_EXTRA:
             add(kind, form + '-wide', fmt, spelling, s)
+    # texts that span lines: where the printers indent, trim and re-quote
+    for kind, form, fmt, spelling in ML_FORMS:
+        for s in strings(ML_ALPHA, L + 1):
+            if '\n' in s:
+                add(kind, form + '-lines', fmt, spelling, s)
     return cases
 
 
@@ -911,7 +921,8 @@ GROUP_DOC = {
               'texts = all strings over {a,\',",\\,/,`,newline,{,}} spelled raw, and spelled with escapes, inside every quoting form '
               'of the grammar syntax (\'..\' ".." r\'..\' \'\'\'..\'\'\' /../ ?".." ?\'..\' ?/../? `..` ```..``` ^`..` @@keyword '
               '@@namechars @@whitespace @@comments @@eol_comments rule params/kwparams); only models the original compile accepts; '
-              'plus 7 wide / combining / drawing-glyph texts for the railroad widths; inputs: the text itself, doubled, '
+              'plus 7 wide / combining / drawing-glyph texts for the railroad widths, plus all texts with a line break over {a,space,newline} one longer than the bound '
+              'as ```constant```, ^```alert```, /pattern/, \'\'\'token\'\'\' and escaped token; inputs: the text itself, doubled, '
               'with every alphabet character before / after it, every alphabet character, pairs'),
 }
 
